@@ -77,6 +77,8 @@ struct Animator {
     defaults: Defaults,
     arms: Vec<Arm>,
     features: Vec<&'static str>,
+    /// builder twin: from_state / from_values after the `on` calls
+    defaults_last: bool,
 }
 
 fn time_lit(rng: &mut Rng) -> TimeLit {
@@ -443,12 +445,17 @@ fn gen_animator(rng: &mut Rng) -> Animator {
     if free.len() > 0 {
         features.push("unmentioned-states");
     }
+    let defaults_last = rng.chance(0.5);
+    if defaults_last {
+        features.push("builder-twin-defaults-last");
+    }
     features.sort();
     features.dedup();
     Animator {
         defaults,
         arms,
         features,
+        defaults_last,
     }
 }
 
@@ -530,13 +537,19 @@ fn render_builder(a: &Animator) -> String {
     }
     s.push_str("        let _ = &default_values;\n");
     s.push_str("        StateAnimatorBuilder::<MSt, MValsTimeline>::new()\n");
+    // The builder is documented as a fluent, order-insensitive configuration: in half of the
+    // twins the initial state / values are given before the timelines, in the other half after.
+    let mut defaults = String::new();
     match &a.defaults {
         Defaults::StateOnly(st) | Defaults::Inline(st, _) | Defaults::Expr(st, _) => {
-            let _ = writeln!(s, "            .from_state(MSt::S{st})");
+            let _ = writeln!(defaults, "            .from_state(MSt::S{st})");
         }
         Defaults::None => {}
     }
-    s.push_str("            .from_values(default_values.clone())\n");
+    defaults.push_str("            .from_values(default_values.clone())\n");
+    if !a.defaults_last {
+        s.push_str(&defaults);
+    }
     for arm in &a.arms {
         for st in &arm.states {
             let tl = if arm.tls.len() == 1 {
@@ -553,6 +566,9 @@ fn render_builder(a: &Animator) -> String {
             };
             let _ = writeln!(s, "            .on(MSt::S{st}, {tl})");
         }
+    }
+    if a.defaults_last {
+        s.push_str(&defaults);
     }
     s.push_str("            .build()\n    }");
     s
